@@ -44,9 +44,7 @@ Record gen_case := { gc_in : gen_in; gc_obs : obs }.
 
 Definition embedded_docs (g : gen_in) : list doc :=
   List.concat (List.map (fun kv => match snd kv with FDoc e => [e] | _ => [] end) (g_fs g)).
-(* the embedded document ProcessInternalApkSBOM uses for this apk, if any *)
-Definition located (g : gen_in) (a : apk) : option doc :=
-  match locate (g_fs g) (candidates (a_name a) (a_version a)) with Some (FDoc e) => Some e | _ => None end.
+(* [located]: the embedded document ProcessInternalApkSBOM uses for an apk (Spec/SbomSpec.v) *)
 Definition targets_of (g : gen_in) (a : apk) : list string :=
   match located g a with Some e => targets (a_name a) e | None => [] end.
 (* target ids of the apks whose embedded document describes three or more
@@ -54,6 +52,21 @@ Definition targets_of (g : gen_in) (a : apk) : list string :=
    leave dangling after fix 494ce81 *)
 Definition all_targets (g : gen_in) : list string :=
   List.concat (List.map (fun a => let t := targets_of g a in if Nat.leb 3 (List.length t) then t else []) (g_apks g)).
+
+(* target ids of the apks whose embedded document describes exactly TWO elements
+   carrying the apk's name, one of which is already the id of a package carrying
+   that name that can be in the document (Spec fresh_for fails): finding C11-F4 *)
+Fixpoint unfresh_two_from (g : gen_in) (l1 rest : list apk) : list string :=
+  match rest with
+  | [] => []
+  | a :: t =>
+      (match located g a with
+       | Some e => let tg := targets (a_name a) e in
+                   if Nat.eqb (List.length tg) 2 && negb (fresh_for_b g l1 a tg) then tg else []
+       | None => []
+       end) ++ unfresh_two_from g (l1 ++ [a]) t
+  end.
+Definition unfresh_two_targets (g : gen_in) : list string := unfresh_two_from g [] (g_apks g).
 
 Definition structural_ids (g : gen_in) : list string := List.map p_id (d_pkgs (base_doc g)).
 
@@ -68,7 +81,9 @@ Definition validate_gen (g : gen_in) (d : doc) : list string :=
   let apk_id a := p_id (apk_package (nonce_of g) a) in
   tag_if (negb (ids_unique_b d)) "viol:dup-id" ++
   tag_if (negb (forallb valid_id_b (ids d))) "viol:id-syntax" ++
-  uniq_tags (List.map (fun x => if mem x (all_targets g) then "viol:dangling-ref/replace-loop-three-targets" else "viol:dangling-ref")
+  uniq_tags (List.map (fun x => if mem x (all_targets g) then "viol:dangling-ref/replace-loop-three-targets"
+                                else if mem x (unfresh_two_targets g) then "viol:dangling-ref/replace-loop-two-targets-reused-id"
+                                else "viol:dangling-ref")
                       (dangling_rel_ends d)) ++
   tag_if (match dangling_described d with [] => false | _ => true end) "viol:dangling-described" ++
   uniq_tags (List.concat (List.map (fun a =>
@@ -87,7 +102,12 @@ Definition validate_gen (g : gen_in) (d : doc) : list string :=
              removes by id) or the de-duplication took it: the collision finding *)
           if existsb (fun p => String.eqb (p_name p) (a_name a)) (d_pkgs d) then []
           else if Nat.ltb 1 (count_true (fun b => String.eqb (apk_id b) (apk_id a)) (g_apks g))
-               then ["viol:apk-element-missing/id-collision"] else ["viol:apk-name-missing"]
+               then ["viol:apk-element-missing/id-collision"]
+               (* two targets one of which reuses the id Generate mints for the apk itself: the
+                  loop removes the apk's element and both imported ones (C11-F4) *)
+               else if existsb (fun t => mem t (unfresh_two_targets g)) (targets_of g a)
+               then ["viol:apk-name-missing/replace-loop-two-targets-reused-id"]
+               else ["viol:apk-name-missing"]
       end) (g_apks g))) ++
   tag_if (negb (forallb (fun p => existsb (fun a => elem_of_b a p) (g_apks g)) own)) "viol:element-not-installed" ++
   (if String.eqb (g_image g) "" then []
